@@ -4,6 +4,7 @@ Model of the REPAIRED code (fix commits 382c450, 92e9760, d65eea1, 1c0252f, 2839
 Only statements live here; the proofs are in Lemmas.lean.
 -/
 import Verif.C10.Lemmas
+import Verif.C10.MapperLemmas
 import Verif.Generated.TablesC10
 
 namespace Verif.C10
@@ -170,6 +171,95 @@ theorem process_then_commit_adds_nothing (s s' : Suite) (b : Int) (g : Bool) (af
       simp only
       rw [ih]
 
+/-! ## the same clause with the FieldMapper modelled: `TestSuite.process` with a scripted processor
+
+`processM sch s b g script` (Mapper.lean): the input rows are read up front, item `k` is answered by
+`script[k % len(script)]` (results, chart edges, run, scalar entries), `FieldMapper.map/cleanup` turn the
+responses into rows of parse / result / edge / run (live key lists), every row goes through `_add_row`
+(flush through `commit` whenever more than `b` rows are pending), then `write_database` and `reload`. -/
+
+/-- EXACTLY ONCE, for ALL schemas, item lists, response scripts, buffer sizes `b` (0, 1, …, beyond the
+number of rows, negative) and gzip settings: if `process` completes, the mapper produced one group of
+rows per item plus the final run group, and every table shows AND stores exactly its previous rows
+(none for the relations processing invalidates) followed by the rows produced for it, in order, each
+once — whatever flushes happened in between. -/
+theorem processM_exactly_once (sch : Schema) (s s' : Suite) (b : Int) (g : Bool) (script : List Resp)
+    (h : L.AllAligned s) (hp : processM sch s b g script = (s', none)) :
+    ∃ inFields items gs, processInput sch s = .ok (inFields, items)
+      ∧ producedGroups sch inFields script items = (gs, none)
+      ∧ gs.length = items.length + 1
+      ∧ ∀ j, L.content s' j = (if (affectedIdx sch).contains j then [] else L.content s j) ++ L.rowsFor j gs.flatten
+           ∧ L.stored s' j = (if (affectedIdx sch).contains j then [] else L.content s j) ++ L.rowsFor j gs.flatten := by
+  obtain ⟨inFields, items, gs, hi, hg, hproc⟩ := L.processM_ok sch s s' b g script hp
+  exact ⟨inFields, items, gs, hi, hg, (L.producedGroups_spec sch inFields script items gs hg).1,
+    fun j => L.process_content s s' b g _ _ h hproc j⟩
+
+/-- after `process`: memory = disk and `in_transaction` is false for every table, and a commit
+afterwards changes nothing (and so does a second one: `commit_idempotent`). -/
+theorem processM_synchronized (sch : Schema) (s s' : Suite) (b : Int) (g : Bool) (script : List Resp)
+    (hp : processM sch s b g script = (s', none)) :
+    (∀ t ∈ s', abs t = t.file ∧ inTransaction t = false ∧ Aligned t) ∧ inTransactionS s' = false
+    ∧ commitAll s' = (s', none) := by
+  obtain ⟨_, _, gs, _, _, hproc⟩ := L.processM_ok sch s s' b g script hp
+  have h1 := process_synchronized s s' b g _ _ hproc
+  refine ⟨h1, ?_, process_then_commit_adds_nothing s s' b g _ _ hproc⟩
+  simp only [inTransactionS, List.any_eq_false]
+  intro t ht
+  simp [(h1 t ht).2.1]
+
+/-- a relation outside the mapper's affected set (item, or any user relation) keeps exactly the rows it
+showed before `process` — uncommitted appends included, each once — and they are on disk afterwards
+(so the following commit neither loses nor repeats them). -/
+theorem processM_unaffected_kept (sch : Schema) (s s' : Suite) (b : Int) (g : Bool) (script : List Resp)
+    (h : L.AllAligned s) (hp : processM sch s b g script = (s', none))
+    (j : Nat) (t : TableS) (hj : sch[j]? = some t) (hn : c10AffectedTables.contains t.name = false) :
+    L.content s' j = L.content s j ∧ L.stored s' j = L.content s j := by
+  obtain ⟨inFields, items, gs, _, hg, hproc⟩ := L.processM_ok sch s s' b g script hp
+  have hc := L.process_content s s' b g _ _ h hproc j
+  have hna : (affectedIdx sch).contains j = false := by
+    rw [Bool.eq_false_iff]
+    intro hc'
+    rw [List.contains_iff_mem, L.mem_affectedIdx] at hc'
+    obtain ⟨t', ht', hc''⟩ := hc'
+    rw [hj] at ht'
+    injection ht' with ht'
+    subst ht'
+    rw [hn] at hc''
+    cases hc''
+  have hr := L.rowsFor_unaffected sch gs.flatten j t hj hn
+    (L.producedGroups_spec sch inFields script items gs hg).2
+  rw [hna, hr] at hc
+  simpa using hc
+
+/-- one response becomes one parse row, then one result row per result, then one edge row per chart edge. -/
+theorem mapper_response_shape (st st' : MState) (keys : Dict) (r : Resp) (tx : List (String × Dict))
+    (h : mapResponse st keys r = .ok (st', tx)) :
+    tx.length = 1 + (r.results.getD []).length + r.chart.length
+    ∧ tx.map (·.1) = ["parse"] ++ List.replicate (r.results.getD []).length "result"
+                      ++ List.replicate r.chart.length "edge" :=
+  L.mapResponse_shape st st' keys r tx h
+
+/-- the parse id of a response is `max(previous + 1, i-id)` … -/
+theorem mapper_parse_id (st st' : MState) (keys : Dict) (r : Resp) (tx : List (String × Dict))
+    (h : mapResponse st keys r = .ok (st', tx)) :
+    ∃ iid, decInt (iidCellOf keys) = some iid ∧ st'.parseId = max (st.parseId + 1) iid :=
+  L.mapResponse_parseId st st' keys r tx h
+
+/-- … so the parse ids of a run are strictly increasing (every parse row has its own id, whatever the
+item ids are: repeated, descending, negative), each at least its item's id, and integer cells with
+different values have different codes. -/
+theorem parse_ids_distinct (p : Int) (is : List Int) :
+    (parseIds p is).Pairwise (· < ·) ∧ (parseIds p is).length = is.length
+    ∧ (∀ k (h1 : k < (parseIds p is).length) (h2 : k < is.length), is[k] ≤ (parseIds p is)[k])
+    ∧ (∀ i j : Int, encInt i = encInt j → i = j) :=
+  ⟨L.parseIds_increasing p is, (L.parseIds_ge p is).1, (L.parseIds_ge p is).2, L.encInt_injective⟩
+
+/-- what the driver reports for the `callback` of item `k` (`processPhases`, compared with the real
+tables at every item) is the state of the same run after the rows of the first `k` items. -/
+theorem process_phase_is_prefix_run (s : Suite) (b : Int) (gs : List (List (Nat × Row))) (k : Nat) (sk : Suite)
+    (hk : (traceGroups s b gs)[k]? = some sk) : addRows s b (gs.take k).flatten = (sk, none) :=
+  L.traceGroups_getElem? s b gs k sk hk
+
 /-! ## pins: the constants, operators and defaults of the anchored code that the model hand-codes -/
 
 /-- Read on every run from the live `delphin.itsdb` (AST of each function: literals in source order,
@@ -196,10 +286,14 @@ comparison/boolean/arithmetic operators as `op:…`, calls of min/max/len/enumer
 * `c10CommitConsts` (`suffix == '.gz'`, `vol >= pers and not gzip`, `append = True/False`): `commit`.
 * `c10ProcessConsts`, `c10AddRowConsts` (`num_changes = 0`, `+= len(table) - pers`, `> buffer_size`),
   `c10Defaults` (`buffer_size=1000`, `gzip=False`, `select(cast=True)`): `process`, `addRow`, `numChanges`.
-* `c10Mapper…Consts`, `c10ParseKeys`, `c10ResultKeys`, `c10RunKeys`, `c10AffectedTables`, `c10TaskSelectors`:
-  not in the Lean model; the harness's re-statement of FieldMapper (`Spec.produced`, `AFFECTED`, `PARSE_KEYS`,
-  `RESULT_KEYS`, `RUN_KEYS`, parse-id from `-1` by `max(id + 1, i-id)`, run-id default `-1`, input column
-  `item.i-input`) hand-codes them, and the model's `process` receives `affected`/`produced` from it.
+* `c10MapperInitConsts` (`_parse_id = -1`, `_last_run_id = -1`), `c10MapParseConsts` (`keys`, `i-id`, `-1`,
+  `max(_parse_id + 1, i_id)`, `run-id` default `-1`, `readings = len(results)` when absent), `c10MapResultConsts`,
+  `c10MapEdgeConsts` (`parse-id`, `e-daughters`/`e-alternates` → None), `c10MapperMapConsts` (`parse`, `result`,
+  `chart`/`edge`, `run`, `run-id` default `-1`), `c10MapperCleanupConsts` (`!= -1`, `sorted`, `run-id`):
+  Mapper.lean `MState`, `mapParse`, `mapResult`, `mapEdge`, `mapResponse`, `stepRuns`, `cleanup`.
+  `c10ParseKeys`, `c10ResultKeys`, `c10RunKeys`, `c10AffectedTables`, `c10TaskSelectors` are USED by the model
+  (`pick`, `affectedIdx`, `processInput`); the harness's independent re-statement (`Spec.produced`, `AFFECTED`,
+  `PARSE_KEYS`, `RESULT_KEYS`, `RUN_KEYS`) hand-codes their intersection with the harness schema.
 * `c10ErrorBases`: ITSDBError is a TSDBError (the harness maps exceptions by class).
 
 A change to any of them must be followed in the model / harness: this theorem stops checking, which the
